@@ -19,6 +19,13 @@ tie   : stream valid-grid — valid and invalid grid geometries (templates of ev
         stream pair-rule — the real PolygonIntersectionAnalyzer::processIntersections (findInvalidIntersection) on single pairs
         of ring segments, both flag settings, against the Lean copy (Model/Valid/PairRule.lean), which is PROVED equal to the
         reference evaluator's intersection rule (findInvalidIntersection_eq_pairRule).
+        stream self-node — the real PolygonIntersectionAnalyzer (self-touching-ring flag on) shown the segment pairs of ONE ring (flower
+        rings passing 2..5 times through a node with inverted pockets and exverted lobes, template / random rings; as shell and as
+        hole) in random order, some twice, then PolygonRing::findInteriorSelfNode, against the Lean copy (Model/Valid/SelfNode.lean:
+        recorded code and interior self node).
+        stream nested-tester — the real IndexedNestedPolygonTester (isNested / getNestedPoint) on integer MultiPolygons (elements inside one
+        of several holes of another element with their first vertices on the hole ring, comb / arch / bay touch families, random
+        contact multipolygons, templates) against the Lean copy (Model/Valid/NestedTester.lean).
 translator tie (every run): translate/cxx2lean.py regenerates PolygonNodeTopology + Quadrant::quadrant (spec node_topology),
         PolygonIntersectionAnalyzer::processIntersections / findInvalidIntersection / isAdjacentInRing / prevCoordinateInRing (valid_pair_rule),
         IsValidOp::isValidGeometry and the isValid overloads = the rule order and early exits (valid_rule_order),
@@ -76,35 +83,87 @@ def parse_verdict(v):
     return t[1], d
 
 
-def signature(verdict):
+def ring_start_on_multipass_node(geom):
+    """Exact structural feature: some polygon ring has its FIRST vertex at a point through which ANOTHER polygon ring of the geometry
+    passes at least twice (that ring touches itself there).  PolygonTopologyAnalyzer::isRingNested(test, target) decides by the start
+    vertex of the test ring; when it lies on the target ring it looks at ONE pass of the target ring through that point (the first
+    segment containing it) — with several passes the corner of that one pass does not determine the side."""
+    try:
+        g = gtok.parse(geom)[1]
+    except Exception:
+        return False
+    rings = []
+
+    def pts_of(sq):
+        out = []
+        for p in sq[1]:
+            x, y = gtok._frac(p[0]), gtok._frac(p[1])
+            if x is None or y is None:
+                return None
+            if not out or out[-1] != (x, y):
+                out.append((x, y))
+        return out
+
+    def walk(e):
+        if e[0] == "Y":
+            for sq in e[1]:
+                ps = pts_of(sq)
+                if ps and len(ps) >= 4 and ps[0] == ps[-1]:
+                    rings.append(ps)
+        elif e[0] in gtok.COLL:
+            for x in e[1]:
+                walk(x)
+    walk(g)
+
+    def passes(ring, p):
+        n = 0
+        for i in range(len(ring) - 1):
+            a, b = ring[i], ring[i + 1]
+            if a == p:
+                n += 1
+            elif b != p:
+                cr = (b[0] - a[0]) * (p[1] - a[1]) - (b[1] - a[1]) * (p[0] - a[0])
+                if cr == 0 and min(a[0], b[0]) <= p[0] <= max(a[0], b[0]) and min(a[1], b[1]) <= p[1] <= max(a[1], b[1]):
+                    n += 1
+        return n
+    for i, r in enumerate(rings):
+        for j, t in enumerate(rings):
+            if i != j and passes(t, r[0]) >= 2:
+                return True
+    return False
+
+
+def signature(verdict, geom=None):
     """Structural key of a disagreement (matched against KNOWN_FINDINGS.json).
     class : valid | code | loc | simple | ring | invariance | crash
     flag  : self-touching-ring flag of the differing observation (valid/code/loc)
     impl / ref : 'valid' or 'invalid:<code(s)>'
     selfTouchingRing : some polygon ring meets itself in non-adjacent segments (exact, from the driver)
-    touchesOtherRing : such a ring also meets another ring of its polygon"""
+    touchesOtherRing : such a ring also meets another ring of its polygon
+    ringStartOnMultiPassNode : (only present when true, only for a self-touching ring) ring_start_on_multipass_node(geom)"""
     key, d = parse_verdict(verdict)
     st = d.get("st") == "1"
     rt = d.get("rt") == "1"
+    extra = {"ringStartOnMultiPassNode": True} if (st and geom is not None and ring_start_on_multipass_node(geom)) else {}
     if key.startswith("crash"):
         return {"class": "crash"}
     if key in ("valid0", "valid1"):
         raw = d.get("impl", "?")
         impl = "valid" if raw.startswith("1") else "exception" if raw.startswith("2") else ("invalid:" + raw.split("/")[1] if "/" in raw else "invalid")
         ref = d.get("ref", "?")
-        return {"class": "valid", "flag": int(key[-1]), "impl": impl, "ref": ref, "selfTouchingRing": st, "touchesOtherRing": rt}
+        return dict({"class": "valid", "flag": int(key[-1]), "impl": impl, "ref": ref, "selfTouchingRing": st, "touchesOtherRing": rt}, **extra)
     if key in ("code0", "code1", "loc0", "loc1"):
-        return {"class": key[:-1], "flag": int(key[-1]), "selfTouchingRing": st, "touchesOtherRing": rt}
+        return dict({"class": key[:-1], "flag": int(key[-1]), "selfTouchingRing": st, "touchesOtherRing": rt}, **extra)
     if key in ("simple", "ring"):
         return {"class": key, "impl": d.get("impl", "?"), "ref": d.get("ref", "?")}
     if key == "invariance":
         what = d.get("_rest", "").split(":")[0]
-        return {"class": "invariance", "what": what, "selfTouchingRing": st}
+        return dict({"class": "invariance", "what": what, "selfTouchingRing": st}, **extra)
     return {"class": key}
 
 
 def shrink(exe, geom, verdict):
-    sig0 = signature(verdict)
+    sig0 = signature(verdict, geom)
     best = (geom, verdict)
     progress, rounds = True, 0
     while progress and rounds < 8:
@@ -116,7 +175,7 @@ def shrink(exe, geom, verdict):
             break
         for cand in cands[:60]:
             v, _ = evaluate(exe, cand)
-            if v and v.startswith("bad") and signature(v) == sig0:
+            if v and v.startswith("bad") and signature(v, cand) == sig0:
                 best = (cand, v)
                 progress = True
                 break
@@ -159,6 +218,66 @@ def pair_wkts(case):
         return []
 
 
+def _ring(t):
+    v = t.split()
+    return "(" + ",".join("%s %s" % (v[i], v[i + 1]) for i in range(0, len(v), 2)) + ")"
+
+
+def tester_wkts(case):
+    """the MultiPolygon of a nested-tester case 'T | ring ; ring / ring | impl'"""
+    try:
+        body = case.split("|")[1]
+        return ["MULTIPOLYGON(" + ",".join("(" + ",".join(_ring(r) for r in poly.split(";")) + ")" for poly in body.split("/")) + ")"]
+    except Exception:
+        return []
+
+
+def selfnode_wkts(case):
+    """the polygon of a self-node case 'S shell | ring | pairs': the ring as shell, or as hole of a large box"""
+    try:
+        head, ring, _ = case.split("|")
+        v = [int(x) for x in ring.split()]
+        xs, ys = v[0::2], v[1::2]
+        if head.split()[1] == "1":
+            return ["POLYGON(%s)" % _ring(ring)]
+        x0, x1, y0, y1 = min(xs) - 5, max(xs) + 5, min(ys) - 5, max(ys) + 5
+        return ["POLYGON((%d %d,%d %d,%d %d,%d %d,%d %d),%s)" % (x0, y0, x1, y0, x1, y1, x0, y1, x0, y0, _ring(ring))]
+    except Exception:
+        return []
+
+
+def direct_stream(ctx, exe, corr, name, n, to_wkts, what, fields, found_input):
+    """run a direct correspondence stream of a Lean copy against the real function; a disagreement is turned into a geometry on
+    which the validity verdict itself is wrong when possible (failing input), else reported as a broken tie"""
+    r = verif.run_stream(exe, name, ctx.seed, n, ctx.work, shards=8, driver_exe=DRV)
+    corr[name] = {"cases": r["cases"], "disagreements": len(r["disagreements"]) + r.get("more_disagreements", 0), "distribution": r["stats"]}
+    if r["error"]:
+        ctx.violation("stream %s could not run: %s" % (name, r["error"]), {"kind": "tie-broken", "correspondence": name, "detail": r["error"]}, nofail=True)
+        return found_input
+    if not r["disagreements"]:
+        return found_input
+    failing = None
+    for idx, case, exp, got in r["disagreements"][:40]:
+        for wkt in to_wkts(case):
+            v, obs = evaluate(exe, "W " + wkt)
+            if v and v.startswith("bad"):
+                failing = (case, exp, got, wkt, v, obs)
+                break
+        if failing:
+            break
+    if failing:
+        case, exp, got, wkt, v, obs = failing
+        sig = signature(v, obs.split(" | ")[1] if obs and obs.count(" | ") >= 2 else None)
+        ctx.violation("validity differs from the OGC rules on a geometry where %s differs from its model: %s  [%s]" % (what, v, json.dumps(sig, sort_keys=True)),
+                      {"kind": "failing-input", "stream": name, "wkt_list": [wkt], "wkt": wkt, "observed": obs.split(" | ")[-1] if obs else "", "verdict": v,
+                       "case": case, "impl": exp, "model": got, "signature": sig}, signature=sig)
+        return True
+    idx, case, exp, got = r["disagreements"][0]
+    ctx.violation("%s differs from its Lean copy: case %s impl %s model %s" % (what, case, exp, got),
+                  {"kind": "tie-broken", "correspondence": name, "case": case, "impl": exp, "model": got, "fields": fields}, nofail=not found_input)
+    return found_input
+
+
 def run(ctx):
     ctx.base_trust([
         "the reference evaluator GeosModel.Valid.validRef / simpleRef (literal OGC/JTS rules on exact integer geometry, Model/Valid/Ref.lean) "
@@ -179,17 +298,17 @@ def run(ctx):
         ctx.violation("harness c05 does not compile against the current tree", {"kind": "tie-broken", "correspondence": "harness/c05.cpp", "log": out[-3000:]}, nofail=True)
         return
     quick = ctx.tier == "quick"
-    n = 12000 if quick else 400000
+    n = 20000 if quick else 400000
     found_input = False
     r = verif.run_stream(exe, STREAM, ctx.seed, n, ctx.work, shards=8, driver_exe=DRV, timeout=6000)
     fam = {}
     for k, v in r["stats"].items():
         if k.startswith("family_"):
             base = k[7:].split("+")
-            fam["templates_hit"] = fam.get("templates_hit", 0) + (1 if len(base) == 1 and not base[0].startswith(("rand_", "touch_")) else 0)
+            fam["templates_hit"] = fam.get("templates_hit", 0) + (1 if len(base) == 1 and not base[0].startswith(("rand_", "touch_", "dwell_", "flower_")) else 0)
             for m in base[1:]:
                 fam["mutation_" + m] = fam.get("mutation_" + m, 0) + v
-            if base[0].startswith(("rand_", "touch_")):
+            if base[0].startswith(("rand_", "touch_", "dwell_", "flower_")):
                 fam[base[0]] = fam.get(base[0], 0) + v
     dist = {k: v for k, v in r["stats"].items() if not k.startswith("family_")}
     dist.update(fam)
@@ -217,14 +336,14 @@ def run(ctx):
         if len(parts) < 3:
             continue
         geom = parts[1]
-        sig0 = signature(got)
+        sig0 = signature(got, geom)
         if sig0 in seen:
             continue
         seen.append(sig0)
         if shrunk < 10 and got.startswith("bad"):
             geom, got = shrink(exe, geom, got)
             shrunk += 1
-        sig = signature(got)
+        sig = signature(got, geom)
         if sig != sig0 and sig in seen:
             continue
         seen.append(sig)
@@ -266,7 +385,7 @@ def run(ctx):
         idx, case, exp, got = r3["disagreements"][0]
         if failing:
             case, exp, got, wkt, v, obs = failing
-            sig = signature(v)
+            sig = signature(v, obs.split(" | ")[1] if obs and obs.count(" | ") >= 2 else None)
             found_input = True
             ctx.violation("validity differs from the OGC rules on a pair of rings where isRingNested differs from its model / the containment reference: %s  [%s]" % (v, json.dumps(sig, sort_keys=True)),
                           {"kind": "failing-input", "stream": "ring-nested", "wkt_list": [wkt], "wkt": wkt, "observed": obs.split(" | ")[-1] if obs else "", "verdict": v,
@@ -295,7 +414,7 @@ def run(ctx):
         idx, case, exp, got = r4["disagreements"][0]
         if failing:
             case, exp, got, wkt, v, obs = failing
-            sig = signature(v)
+            sig = signature(v, obs.split(" | ")[1] if obs and obs.count(" | ") >= 2 else None)
             found_input = True
             ctx.violation("validity differs from the OGC rules on rings where the per-pair intersection decision differs from its model: %s  [%s]" % (v, json.dumps(sig, sort_keys=True)),
                           {"kind": "failing-input", "stream": "pair-rule", "wkt_list": [wkt], "wkt": wkt, "observed": obs.split(" | ")[-1] if obs else "", "verdict": v,
@@ -305,6 +424,17 @@ def run(ctx):
                           {"kind": "tie-broken", "correspondence": "pair-rule", "case": case, "impl": exp, "model": got,
                            "fields": "case = Q flag same i j | ring A | ring B (integer x y pairs); answer = error code of the pair (segment i of A, segment j of B or of A when same=1), -1 none"},
                           nofail=not found_input)
+    # ---- the self-touch bookkeeping of the flag mode (findInvalidIntersection -> addSelfTouch -> findInteriorSelfNode -> isExterior) against the
+    #      real PolygonIntersectionAnalyzer / PolygonRing on the segment pairs of one ring, presented in random order
+    found_input = direct_stream(ctx, exe, corr, "self-node", 120000 if quick else 2000000, selfnode_wkts,
+                                "the self-touch bookkeeping (PolygonIntersectionAnalyzer::processIntersections + PolygonRing::findInteriorSelfNode)",
+                                "case = S <1 shell / 0 hole> | <ring> | <segment index pairs in presentation order>; answer = recorded code (-1 none) and interior self node (x y or -)",
+                                found_input)
+    # ---- the nested-shells rule of a MultiPolygon: IndexedNestedPolygonTester against its Lean copy
+    found_input = direct_stream(ctx, exe, corr, "nested-tester", 120000 if quick else 2000000, tester_wkts,
+                                "IndexedNestedPolygonTester::isNested",
+                                "case = T | <elements separated by '/', rings by ';', shell first> | <impl: 0 / 1 x y / X>; answer ok, or the model's answer (admissible nested points)",
+                                found_input)
     ctx.cov["support_correspondence"] = corr
     if not proved:
         lf = getattr(ctx, "lean_failure", None) or {}
